@@ -54,7 +54,13 @@ func (e *executionResult[R]) Done() <-chan any {
 }
 
 func (e *executionResult[R]) IsDone() bool {
-	return e.done.Load()
+	// Report done only once the Done channel is closed, so that IsDone and Done never disagree
+	select {
+	case <-e.doneChan:
+		return true
+	default:
+		return false
+	}
 }
 
 func (e *executionResult[R]) Get() (R, error) {
